@@ -209,6 +209,9 @@ func (r polyline) draw(dst backend.Canvas, _ *attributes, _ *SVGImage, _ drawing
 // ellipse or circle
 type ellipse struct {
 	rx, ry, cx, cy Value
+
+	// true for <circle> : rx == ry is the "r" attribute
+	isCircle bool
 }
 
 func newEllipse(node *cascadedNode, _ *svgContext) (drawable, error) {
@@ -221,7 +224,7 @@ func newEllipse(node *cascadedNode, _ *svgContext) (drawable, error) {
 	}
 
 	var (
-		out ellipse
+		out = ellipse{isCircle: node.tag == "circle"}
 		err error
 	)
 	out.rx, err = parseValue(rx_)
@@ -244,8 +247,18 @@ func newEllipse(node *cascadedNode, _ *svgContext) (drawable, error) {
 	return out, nil
 }
 
+// resolve the radii : a percentage "r" of a circle refers to the
+// normalized diagonal of the viewport, not to its width and height
+func (e ellipse) radii(dims drawingDims) (rx, ry Fl) {
+	if e.isCircle {
+		r := dims.length(e.rx)
+		return r, r
+	}
+	return dims.point(e.rx, e.ry)
+}
+
 func (e ellipse) draw(dst backend.Canvas, _ *attributes, _ *SVGImage, dims drawingDims) []vertex {
-	rx, ry := dims.point(e.rx, e.ry)
+	rx, ry := e.radii(dims)
 	if rx == 0 || ry == 0 {
 		return nil
 	}
